@@ -23,6 +23,14 @@ Inductive sact := SAppend | SRemove | SSoonStart | SSoonStop.
    TTL timer, store (callback_expired, handle), call the popped callback *)
 Inductive tact := TPop | TCancel | TCallNew | TArm | TStore | TCallback.
 
+(* what ServiceAnnouncer.queue_send does: hand the entry over at once (collection timeout 0), or create a collector for the
+   destination when none is open (its timeout is armed then) and append the entry to the destination's collector *)
+Inductive qact := QSendNow | QNewCollector | QAppend.
+
+(* what answering a FindService does: draw the response delay, defer _answer_find of every matching instance by that delay
+   (multicast) or to the next loop iteration (unicast); _answer_find sends the offer to the requester *)
+Inductive fact := FDraw | FLaterEach | FSoonEach | FSendOffer.
+
 (* what SimpleService.message_received answers: nothing, an error with a return code, the positive response *)
 Require Import Coq.NArith.BinNat.
 Inductive greply := GNoReply | GError (rc : N) | GPositive.
